@@ -191,6 +191,10 @@ C04 = [
     _pr("hwloc_bitmap_taskset_snprintf", note="snprintf contract + termination; any bitmap with <= 64 stored words, both tails, buffers 0..64 or NULL"),
     _pr("hwloc_bitmap_list_snprintf", note="snprintf contract + termination; any bitmap with <= 64 stored words, both tails, buffers 0..64 or NULL; next/next_unset inlined under their own loop invariants"),
 ] + [
+    _pr(fn, cost=200, defines={"VERIF_ASPRINTF": None, "NW": 8}, timeout=1500,
+        note="both passes + allocation of len+1 bytes are memory safe and terminate, returns a length with a string or -1; any bitmap with <= 8 stored words; that both passes produce the same text is assumed (snprintf contract stub)")
+    for fn in ("hwloc_bitmap_asprintf", "hwloc_bitmap_list_asprintf", "hwloc_bitmap_taskset_asprintf")
+] + [
     Job(name=fn, driver="bitmap.parse.drv.c", entry="hp_" + fn, mode="plain", unwind=9, min_post=0, cost=60, label="bounded",
         family="parsers", defines={"SLEN": 6}, timeout=1200,
         note="arbitrary NUL-terminated string of <= 6 bytes (all byte values): returns 0/-1, memory safe, no failed assertion, REP preserved; loops unwound 9 times with unwinding assertions; strtoul as contract stub")
